@@ -692,6 +692,31 @@ func (a *Analysis) t3Lazy(lc LangCtx, M *ssa.Global, insts []lazyInst, usedGuard
 		r.Unk("T3", "writers/"+M.Name(), pos, "", "%s escapes the analysis: %v", M.Name(), esc)
 		okW = false
 	}
+	if lh.Inline && lh.ListCall != nil {
+		// the list is what the list function yields for this language
+		if callee := lh.ListCall.Call.StaticCallee(); callee != nil {
+			lcv := lc.V
+			e := a.eval(callee, &Ctx{Name: "list:lang=" + lc.Name, Lang: &lcv})
+			var lg *ssa.Global
+			n := 0
+			for _, x := range topExits(e, callee) {
+				n++
+				if len(x.Vals) == 1 {
+					if lv, ok := x.Vals[0].(*ListV); ok && lv.G != nil && (lg == nil || lg == lv.G) {
+						lg = lv.G
+						continue
+					}
+				}
+				lg = nil
+				break
+			}
+			if n > 0 && lg != nil {
+				for i := range insts {
+					insts[i].List = lg
+				}
+			}
+		}
+	}
 	guard, list := insts[0].Guard, insts[0].List
 	for _, in := range insts {
 		if in.Helper != lh {
